@@ -6,6 +6,7 @@ require (
 	github.com/anishathalye/porcupine v1.3.0
 	github.com/gcash/bchd v0.20.0
 	github.com/gcash/bchutil v0.0.0
+	golang.org/x/crypto v0.32.0
 )
 
 require (
@@ -15,7 +16,6 @@ require (
 	github.com/gcash/bchlog v0.0.0-20180913005452-b4f036f92fa6 // indirect
 	github.com/kkdai/bstream v1.0.0 // indirect
 	github.com/zquestz/grab v0.0.0-20190224022517-abcee96e61b1 // indirect
-	golang.org/x/crypto v0.32.0 // indirect
 	golang.org/x/text v0.21.0 // indirect
 	lukechampine.com/uint128 v1.3.0 // indirect
 )
